@@ -34,7 +34,8 @@ ASSUMPTIONS = [
 REACH = {
     t: ["combos_all_48", "rstack_midstream", "error_frame", "ack_nak_rst_no_upward",
         "wraps_1000", "pending_send_variant", "accepted", "dup_retx_acked", "out_of_seq_naked",
-        "several_frames_in_one_read", "frames_after_host_side_failure", "frames_between_host_rst_and_rstack"]
+        "several_frames_in_one_read", "frames_after_host_side_failure", "frames_between_host_rst_and_rstack",
+        "upper_layer_raised_while_taking_a_payload"]
     for t in ("quick", "thorough")
 }
 SHARD_TIMEOUT = {"quick": 600, "thorough": 2400}
@@ -102,6 +103,7 @@ def shards(tier, seed):
         out.append({"part": "multi", "start": start, "acks": [0, 5], "seed": seed, "n": 400 if tier == "quick" else 4000})
     for k in range(2 if tier == "quick" else 8):
         out.append({"part": "after_failure", "seed": seed * 10 + k, "n": 40 if tier == "quick" else 300})
+    out.append({"part": "upper_raises", "seed": seed, "n": 60 if tier == "quick" else 600})
     # DEBUG logging (several times the cost per frame) on the small shards and on short walks of its own
     for d in out:
         d["debuglog"] = d["part"] in ("multi", "after_failure") and (d.get("start", d["seed"]) % 2 == 1)
@@ -111,12 +113,26 @@ def shards(tier, seed):
     return out
 
 
+class UpperBoom(Exception):
+    """Raised by the recorder above ASH when told to fail on a payload."""
+
+
 class Stepper:
     """Feeds one frame at a time to a real AshProtocol and to the reference rule."""
 
-    def __init__(self, acc: Acc):
+    def __init__(self, acc: Acc, boom_tags=()):
         self.acc = acc
         self.proto, self.up, self.tr, self.log = new_protocol()
+        if boom_tags:
+            boom = {bytes([t_ & 0xFF, (t_ >> 8) & 0xFF]) for t_ in boom_tags}
+            plain = self.up.data_received
+
+            def data_received(data):
+                plain(data)  # recorded as handed up: it was
+                if bytes(data)[1:3] in boom:
+                    raise UpperBoom(bytes(data).hex())
+
+            self.up.data_received = data_received
         self.ref = R.RefDecoder()
         self.combos = set()
         self.wraps = 0
@@ -130,6 +146,10 @@ class Stepper:
         mark = len(self.log)
         try:
             self.proto.data_received(wire)
+        except UpperBoom:
+            # the layer above failed while taking the payload (deliberately, part "upper_raises"): how that
+            # failure travels is not C04's business, the answer to the frame and the numbering are
+            acc.hit("upper_layer_raised_while_taking_a_payload")
         except Exception as e:  # noqa: BLE001
             acc.violation("C04/raises", f"data_received raised {e!r} on well-formed {sym}", case, self.hist[-12:])
             return False
@@ -322,6 +342,46 @@ def part_after_failure(desc) -> Acc:
     return acc
 
 
+def part_upper_raises(desc) -> Acc:
+    """The layer above ASH fails while it is handed a payload (an exception leaves its data_received).
+    The frame was accepted: it is still answered with exactly one ACK carrying the next number, it is not
+    handed up again when the peer repeats it, and the frames that follow are treated by the same rule."""
+    acc = Acc()
+    rnd = random.Random(desc["seed"])
+    syms = alphabet([0, 5])
+    for start in range(8):
+        for n in range(desc["n"]):
+            k = rnd.choice([2, 3, 4, 6])
+            seq, exp, booms = [], start, set()
+            for j in range(k):
+                if rnd.random() < 0.65:
+                    seq.append(("D", exp, rnd.randrange(2), rnd.randrange(8)))
+                    if rnd.random() < 0.6 or not booms:
+                        booms.add(j + 1)
+                    exp = (exp + 1) % 8
+                    if rnd.random() < 0.3:
+                        # the peer repeats the frame it already got an answer for
+                        seq.append(("D", (exp - 1) % 8, 1, 0))
+                else:
+                    seq.append(rnd.choice(syms))
+                    if seq[-1][0] == "RSTACK":
+                        exp = 0
+                    elif seq[-1][0] == "D" and seq[-1][1] == exp:
+                        exp = (exp + 1) % 8
+            case = {"part": "upper_raises", "start": start, "seq": [list(x) for x in seq], "fails_on": sorted(booms)}
+            acc.case()
+            st = Stepper(acc, boom_tags=booms)
+            ok = all(st.step(("D", i, 0, 0), 0xFFFF, case) for i in range(start))
+            tag = 0
+            for sym in seq:
+                tag += 1
+                if not ok or not st.step(sym, tag, case):
+                    break
+            acc.nontrivial(("upper_raises", start, tuple(seq), tuple(sorted(booms))))
+    acc.sample({"part": "upper_raises", "example": case})
+    return acc
+
+
 def run_seq(acc: Acc, start: int, seq, case, combos: set, stats):
     st = Stepper(acc)
     for i in range(start):
@@ -454,6 +514,8 @@ def run_shard(desc) -> Acc:
         return part_multi(desc)
     if desc["part"] == "after_failure":
         return part_after_failure(desc)
+    if desc["part"] == "upper_raises":
+        return part_upper_raises(desc)
     if desc["part"] == "exh":
         acc = part_exh(desc, alphabet(desc["acks"]), desc["depth"], desc.get("first"))
     elif desc["part"] == "exh_small":
@@ -478,6 +540,15 @@ def replay(case) -> Acc:
             st.step(("D", i, 0, 0), 0xFFFF, case)
         step_many(st, [tuple(x) for x in case["seq"]], list(range(1, len(case["seq"]) + 1)), case)
         print(st.hist[-3:])
+    elif case.get("part") == "upper_raises":
+        st = Stepper(acc, boom_tags=set(case["fails_on"]))
+        for i in range(case["start"]):
+            st.step(("D", i, 0, 0), 0xFFFF, case)
+        for tag, sym in enumerate(case["seq"], 1):
+            if not st.step(tuple(sym), tag, case):
+                break
+        for h in st.hist[-8:]:
+            print(h)
     elif case.get("part") == "seq":
         run_seq(acc, case["start"], [tuple(s) for s in case["seq"]], case, set(), None)
     elif case.get("part") == "walk":
